@@ -65,14 +65,21 @@ fn validate_integrity(integrity: &ssri::Integrity) -> bool {
         return false;
     }
 
-    // For each hash, check if it has a valid base64-encoded digest
+    // For each hash, check if it has a valid base64-encoded digest of the algorithm's size
+    // (the CAS derives a nested path from the digest; a truncated one makes it panic)
     for hash in &integrity.hashes {
+        let expected_len = match hash.algorithm {
+            ssri::Algorithm::Sha512 => 64,
+            ssri::Algorithm::Sha384 => 48,
+            ssri::Algorithm::Sha256 => 32,
+            ssri::Algorithm::Sha1 => 20,
+            ssri::Algorithm::Xxh3 => 16,
+            _ => return false,
+        };
         // Check if digest is valid base64 using the modern API
-        if base64::engine::general_purpose::STANDARD
-            .decode(&hash.digest)
-            .is_err()
-        {
-            return false;
+        match base64::engine::general_purpose::STANDARD.decode(&hash.digest) {
+            Ok(digest) if digest.len() == expected_len => {}
+            _ => return false,
         }
     }
 
